@@ -69,7 +69,7 @@ def tables(root, spec, probes):
         pl.append(dict(p, **CTX1))
         pl.append(dict(p, **CTX2))
     return run_impl(IMPL, {'root': root, 'spec': spec, 'fmts': [B.format_string(s) for s in spec['sources']],
-                           'probes': pl, 'single_rule_texts': single_rule_texts(spec)}, timeout=120)
+                           'delims': [B.setting_delimiter(s) for s in spec['sources']], 'probes': pl, 'single_rule_texts': single_rule_texts(spec)}, timeout=120)
 
 
 # ------------------------------------------------------------------ the faithful model's predictions (python mirror of C16/Model.v,
@@ -301,7 +301,12 @@ def eval_budget(job, only=None):
         pri = [m for m in merchants if any(n in ((m.get('pattern') or {}).get('matched') or '').lower() for n in suppn)]
         rest = [m for m in merchants if m not in pri]
         rnd.shuffle(rest)
-        for m in (pri + rest)[:2]:
+        # every exact name that has a case-insensitive twin among up's merchants is asked for
+        lows = collections.Counter(m['name'].lower() for m in merchants)
+        twins = [m for m in merchants if lows[m['name'].lower()] > 1]
+        res['stats']['explain_merchant_case_twins'] += len(twins)
+        order = twins + [m for m in pri + rest if m not in twins]
+        for m in order[:max(2, min(len(twins), 6))]:
             ex = B.explain_json(cfg, m['name'])
             res['n_cli'] += 1
             res['stats']['explain_merchant'] += 1
@@ -459,7 +464,7 @@ def coq_pipeline_case(spec, tb, discover, up_unknown):
     ids = {}
     srcs = []
     for i, (s, ps) in enumerate(zip(spec['sources'], tb['per_source'])):
-        cst = {'present': 'Present', 'missing': 'Missing', 'dir': 'Unreadable', 'badutf8': 'Unreadable'}[s['state']]
+        cst = {'present': 'Present', 'missing': 'Missing'}.get(s['state'], 'Unreadable')
         if 'rows' in ps:
             rows = []
             for r in ps['rows']:
@@ -533,6 +538,9 @@ def corpus():
                                     'merchant': '', 'tags': [], 'let': [], 'field': [], 'priority': None})
     b_data = bud(['Ordered'], supp=[row('2025-02-07', 'Book', 100)])
     b_data['rules']['rules'].append(books)
+    b_case = bud(['ZED MART', 'COFFEE', 'Coffee'])     # merchants whose names differ only in letter case
+    b_case['sources'][0]['rows'] += [row('2025-04-01', 'ZED MART', 200), row('2025-04-02', 'ZED MART', 40),
+                                     row('2025-04-03', 'COFFEE ROASTERS', 30), row('2025-04-04', 'SQ *COFFEE HUT', 18)]
     return [
         (bud(['Any Tag', 'Coffee']), [{'desc': 'COFFEE ROASTERS ZQ7', 'amount': 5.0}]),                       # tag-only rule in front
         (bud(['Netflix', 'Netflix Premium'], mode='most_specific'), [{'desc': 'NETFLIX PREMIUM 8841 ZQ7', 'amount': 15.5}]),
@@ -543,6 +551,7 @@ def corpus():
         (bud(['Fuel']), [{'desc': 'SHELL OIL 5521 ZQ7', 'amount': 40.0}]),                                   # merchant: property
         (bud(['Ordered'], supp=[row('2025-02-07', 'Book', 100)]), [{'desc': 'AMZN MKTP US ZQ7', 'amount': 25.0}]),   # supplemental rows + data
         (b_data, [{'desc': 'AMZN MKTP 4411 ZQ7', 'amount': 25.0}]),                                          # supplemental data only
+        (b_case, [{'desc': 'ZED MART ZQ7', 'amount': 50.0}]),
         (bud([], kind='csv', csv=[B.CSV_POOL[9], ['SHOP', 'Shop', 'Shopping', 'Misc', '']]), [{'desc': 'MYSTERY SHOP ZQ7', 'amount': 150.0}]),
     ]
 
